@@ -1099,6 +1099,9 @@ static void malformed_links(uint64_t rounds) {
 	}
 }
 
+static unsigned long g_loglines;
+static int failing_logger(void *c, int level, const char *msg) { (void)c; (void)level; (void)msg; g_loglines++; return KSI_IO_ERROR; }
+
 int main(int argc, char **argv) {
 	long long a, b, c; int i;
 	if (argc < 5) { fprintf(stderr, "usage: c03_chain <mode> <seed> <shard> <nshards> [a] [b] [c]\n"); return 2; }
@@ -1107,6 +1110,8 @@ int main(int argc, char **argv) {
 	if (g_nshards == 0) g_nshards = 1;
 	{ size_t o = 0; for (i = 0; i < argc && o < sizeof g_cmd - 1; i++) o += (size_t)snprintf(g_cmd + o, sizeof g_cmd - o, "%s%s", i ? " " : "", i ? argv[i] : "c03_chain"); }
 	if (KSI_CTX_new(&ctx) != KSI_OK) { fprintf(stderr, "KSI_CTX_new failed\n"); return 2; }
+	/* every third shard runs with a debug-level logger whose callback reports an I/O error (a logger that cannot write): the arithmetic never depends on it */
+	if (g_shard % 3 == 1) { KSI_CTX_setLoggerCallback(ctx, failing_logger, NULL); KSI_CTX_setLogLevel(ctx, KSI_LOG_DEBUG); vh_count("shards_with_failing_debug_logger", 1); }
 	ref_init();
 	if (NSUP < 2) { fprintf(stderr, "fewer than two usable hash algorithms\n"); return 2; }
 	vh_seed(g_seed * 1000003ull + g_shard * 7919ull + vh_hash_bytes(g_mode, strlen(g_mode)));
